@@ -346,7 +346,7 @@ func (r *Rdot) MarshalText() (text []byte, err error) {
 func (r *Ripmap) MarshalText() (text []byte, err error) {
 	w := new(bytes.Buffer)
 	w.WriteString(string(prefixIPMap))
-	putdomtext(w, r.dom)
+	putmapdomtext(w, r.dom)
 	w.Write(NSEP)
 	putlmaptext(w, r.lmap)
 	return w.Bytes(), nil
@@ -356,7 +356,7 @@ func (r *Ripmap) MarshalText() (text []byte, err error) {
 func (r *Rcsmap) MarshalText() (text []byte, err error) {
 	w := new(bytes.Buffer)
 	w.WriteString(string(prefixCSMap))
-	putdomtext(w, r.dom)
+	putmapdomtext(w, r.dom)
 	w.Write(NSEP)
 	putlmaptext(w, r.lmap)
 	return w.Bytes(), nil
